@@ -5,13 +5,12 @@
 //   fmcheck merge <hashfile>...
 #include "registry.hpp"
 #include "meta.hpp"
+#include "fuzzsel.hpp"
 #include <rapidcheck.h>
 #include <chrono>
 #include <fstream>
 #include <sstream>
 
-DecConsts g_dc;
-std::vector<Clause>& registry() { static std::vector<Clause> r; return r; }
 
 static void load_kf(Ctx& ctx, const std::string& path)
 {
@@ -54,6 +53,13 @@ int main(int argc, char** argv)
     for (int i = 2; i < argc; ++i) { FILE* f = fopen(argv[i], "rb"); if (!f) continue; uint64_t buf[4096]; size_t n; while ((n = fread(buf, 8, 4096, f)) > 0) all.insert(all.end(), buf, buf + n); fclose(f); }
     std::sort(all.begin(), all.end()); size_t d = std::unique(all.begin(), all.end()) - all.begin();
     printf("%zu\n", d); return 0;
+  }
+  if (cmd == "decode-fuzz") {   // fmcheck decode-fuzz <clause,clause,...> <artifact> [<cut.so>]
+    if (argc < 4) return 2;
+    Ctx ctx; if (argc > 4) { Cut c; std::string err; if (cut_load(c, argv[4], err)) { ctx.cuts.push_back(c); g_dc.phi = c.phi; g_dc.pidiv2 = c.pidiv2; g_dc.pidiv4 = c.pidiv4; } }
+    FILE* f = fopen(argv[3], "rb"); if (!f) return 2; std::vector<uint8_t> buf(1 << 16); size_t n = fread(buf.data(), 1, buf.size(), f); fclose(f);
+    const Clause* cl; Args a; if (!fuzz_select(ctx, fuzz_clauses(argv[2]), buf.data(), n, cl, a)) { printf("{}\n"); return 0; }
+    printf("{\"clause\": \"%s\", \"args\": %s}\n", cl->id, args_json(a).c_str()); return 0;
   }
   if (argc < 3) return 2;
   std::string clause = argv[2];
